@@ -41,8 +41,8 @@ TNext ==
     \/ Is("enable") /\ Enable /\ res'.k = E.r
     \/ Is("ignoreothers") /\ IgnoreOtherCalls /\ res'.k = E.r
     \/ Is("strict") /\ StrictOrder(E.s) /\ res'.k = E.r
-    \* the end of the test: the verdict, and (inside a real test) the test has failed exactly once or not at all
-    \/ Is("end") /\ End /\ res'.k = E.r /\ (E.mode # "rec" => E.vcount = IF E.r = "ok" THEN 0 ELSE 1)
+    \* the end of the test: the verdict, and (inside a real test) how many failures the test recorded
+    \/ Is("end") /\ End /\ res'.k = E.r /\ (E.mode # "rec" => EndCountOK(E.r, E.vcount))
 \* executions are concatenated with reset lines (cleared mock)
 TReset == Is("reset") /\ ms' = FreshScopes /\ created' = <<>> /\ failed' = FALSE /\ why' = "" /\ last' = "init" /\ res' = Ok
 TSpec == (Init /\ l = 1) /\ [][TNext \/ TReset]_tvars
